@@ -186,18 +186,27 @@ def count_obligations(prop):
 def build_harness():
     """Build the harness crate against /repo's current working tree. Returns (path|None, log)."""
     with Lock("cargo-harness"):
-        lockf = VERIF / "harness" / "Cargo.lock"
+        hdir = VERIF / "harness"
+        if str(REPO) != "/repo":
+            # a repository copy elsewhere (RN_REPO): the crate's two absolute references are re-pointed in a private copy
+            hdir = BUILD / "harness-alt"
+            (hdir / "src").mkdir(parents=True, exist_ok=True)
+            for f in [Path("Cargo.toml")] + [Path("src") / x.name for x in (VERIF / "harness" / "src").glob("*.rs")]:
+                txt = (VERIF / "harness" / f).read_text().replace('"/repo/', '"' + str(REPO) + '/')
+                if not (hdir / f).exists() or (hdir / f).read_text() != txt:
+                    (hdir / f).write_text(txt)
+        lockf = hdir / "Cargo.lock"
         src = REPO / "Cargo.lock"
         if not lockf.exists():
             lockf.write_text(src.read_text())
         env = dict(ENV)
         env["CARGO_TARGET_DIR"] = str(BUILD / "target-harness")
-        rc, out, dt = sh(["cargo", "build", "--offline", "--quiet"], cwd=VERIF / "harness", env=env,
+        rc, out, dt = sh(["cargo", "build", "--offline", "--quiet"], cwd=hdir, env=env,
                          timeout=1500)
         if rc != 0:
             # retry once with a fresh lock copy (dependency set of /repo may have changed)
             lockf.write_text(src.read_text())
-            rc, out, dt = sh(["cargo", "build", "--offline", "--quiet"], cwd=VERIF / "harness",
+            rc, out, dt = sh(["cargo", "build", "--offline", "--quiet"], cwd=hdir,
                              env=env, timeout=1500)
     p = BUILD / "target-harness" / "debug" / "rn-harness"
     return (p if rc == 0 and p.exists() else None), out
